@@ -563,7 +563,35 @@ theorem natDec_cons (n : Nat) : ∃ b t, natDec n = b :: t ∧ 0x30 ≤ b ∧ b 
   | nil => exact absurd h (natDec_ne_nil n)
   | cons b t => exact ⟨b, t, rfl, natDec_digits n b (by simp [h])⟩
 
-theorem write_head (F : ExtFloat) (v : JVal) (h : wellFormed v = true) :
+/-- What the round trip needs from the text of a float: it starts like a number
+and the reader takes it back as the float with that very text. -/
+def FloatLit (src : List Nat) : Prop :=
+  (∃ b t, src = b :: t ∧ (b = 0x2D ∨ isDigit b = true)) ∧
+  ∀ d rest, 0 < d → numEnd rest = true → parseValue d (src ++ rest) = .ok (.float src, rest)
+
+mutual
+  /-- Well-formed, with floats whose source text satisfies `P`. -/
+  def WF (P : List Nat → Prop) : JVal → Prop
+    | .null => True
+    | .bool _ => True
+    | .int i => -9223372036854775808 ≤ i ∧ i ≤ 18446744073709551615
+    | .float src => P src
+    | .str cps => allScalars cps = true
+    | .arr xs => WFList P xs
+    | .obj es => WFEntries P es
+  def WFList (P : List Nat → Prop) : List JVal → Prop
+    | [] => True
+    | x :: xs => WF P x ∧ WFList P xs
+  def WFEntries (P : List Nat → Prop) : List (List Nat × JVal) → Prop
+    | [] => True
+    | (k, v) :: es => (allScalars k = true ∧ WF P v) ∧ WFEntries P es
+end
+
+/-- `F` writes the floats in `P` verbatim, and they read back as themselves. -/
+def ExtFloat.Fixes (F : ExtFloat) (P : List Nat → Prop) : Prop :=
+  ∀ src, P src → F.fmt src = src ∧ FloatLit src
+
+theorem write_headP (F : ExtFloat) (P : List Nat → Prop) (hP : F.Fixes P) (v : JVal) (h : WF P v) :
     ∃ b t, write F v = b :: t ∧ isWs b = false ∧ b ≠ 0x5D ∧ b ≠ 0x7D ∧ b ≠ 0x2C := by
   cases v with
   | null => exact ⟨0x6E, _, rfl, by decide, by decide, by decide, by decide⟩
@@ -575,13 +603,25 @@ theorem write_head (F : ExtFloat) (v : JVal) (h : wellFormed v = true) :
     · obtain ⟨b, t, hb, h1, h2⟩ := natDec_cons i.natAbs
       refine ⟨b, t, hb, ?_, by omega, by omega, by omega⟩
       simp [isWs]; omega
-  | float src => simp [wellFormed] at h
+  | float src =>
+    simp only [WF] at h
+    obtain ⟨he, ⟨b, t, hb, hd⟩, _⟩ := hP src h
+    refine ⟨b, t, by rw [write, he, hb], ?_, ?_, ?_, ?_⟩ <;>
+      (rcases hd with hd | hd
+       · subst hd; decide
+       · simp [isDigit] at hd; first | (simp [isWs]; omega) | omega)
   | str cps => exact ⟨0x22, _, rfl, by decide, by decide, by decide, by decide⟩
   | arr xs => exact ⟨0x5B, _, rfl, by decide, by decide, by decide, by decide⟩
   | obj es => exact ⟨0x7B, _, rfl, by decide, by decide, by decide, by decide⟩
 
-/-- Values whose end is only visible from the next byte (floats are excluded
-from the round-trip statements altogether). -/
+/-- Values whose end is only visible from the next byte. -/
+def needsEnd : JVal → Bool
+  | .int _ => true
+  | .float _ => true
+  | _ => false
+
+/-- Integers: the only float-free values whose end is only visible from the
+next byte. -/
 def isIntVal : JVal → Bool
   | .int _ => true
   | _ => false
@@ -590,22 +630,22 @@ def isIntVal : JVal → Bool
 def expectV (v : JVal) (d : Nat) (rest : List Nat) : Except Err (JVal × List Nat) :=
   if depthOf v < d then .ok (v, rest) else .error .recursionLimit
 
-theorem parse_write_all (F : ExtFloat) :
-    (∀ v, wellFormed v = true → ∀ d rest, 0 < d → (isIntVal v = true → numEnd rest = true) →
+theorem parse_write_gen (F : ExtFloat) (P : List Nat → Prop) (hP : F.Fixes P) :
+    (∀ v, WF P v → ∀ d rest, 0 < d → (needsEnd v = true → numEnd rest = true) →
       parseValue d (write F v ++ rest) = expectV v d rest) ∧
-    (∀ first es, wellFormedEntries es = true → ∀ d rest, 0 < d →
+    (∀ first es, WFEntries P es → ∀ d rest, 0 < d →
       parseEntries d first (writeEntries F first es ++ 0x7D :: rest) =
         if depthOfEntries es < d then .ok (es, rest) else .error .recursionLimit) ∧
-    (∀ first xs, wellFormedList xs = true → ∀ d rest, 0 < d →
+    (∀ first xs, WFList P xs → ∀ d rest, 0 < d →
       parseElems d first (writeElems F first xs ++ 0x5D :: rest) =
         if depthOfList xs < d then .ok (xs, rest) else .error .recursionLimit) := by
   apply write.mutual_induct
-    (motive_1 := fun v => wellFormed v = true → ∀ d rest, 0 < d → (isIntVal v = true → numEnd rest = true) →
+    (motive_1 := fun v => WF P v → ∀ d rest, 0 < d → (needsEnd v = true → numEnd rest = true) →
       parseValue d (write F v ++ rest) = expectV v d rest)
-    (motive_2 := fun first es => wellFormedEntries es = true → ∀ d rest, 0 < d →
+    (motive_2 := fun first es => WFEntries P es → ∀ d rest, 0 < d →
       parseEntries d first (writeEntries F first es ++ 0x7D :: rest) =
         if depthOfEntries es < d then .ok (es, rest) else .error .recursionLimit)
-    (motive_3 := fun first xs => wellFormedList xs = true → ∀ d rest, 0 < d →
+    (motive_3 := fun first xs => WFList P xs → ∀ d rest, 0 < d →
       parseElems d first (writeElems F first xs ++ 0x5D :: rest) =
         if depthOfList xs < d then .ok (xs, rest) else .error .recursionLimit)
   · -- null
@@ -618,7 +658,7 @@ theorem parse_write_all (F : ExtFloat) :
   · -- int
     intro i hwf d rest hd hrest
     have hrest := hrest rfl
-    simp only [wellFormed, decide_eq_true_eq] at hwf
+    simp only [WF] at hwf
     simp only [write, intDec, expectV, depthOf, hd, if_true]
     split
     · rename_i hneg
@@ -647,15 +687,21 @@ theorem parse_write_all (F : ExtFloat) :
       rw [← e1, lexNumber_natDec true _ rest hrest, classifyNum_pos _ hn2]
       simp only [numVal]
       congr 3; omega
-  · intro src hwf; simp [wellFormed] at hwf
+  · -- float
+    intro src hwf d rest hd hrest
+    simp only [WF] at hwf
+    obtain ⟨he, _, hl⟩ := hP src hwf
+    simp only [write, he]
+    rw [hl d rest hd (hrest rfl)]
+    simp [expectV, depthOf, hd]
   · -- str
     intro cps hwf d rest hd _
-    simp only [wellFormed] at hwf
+    simp only [WF] at hwf
     simp [parseValue_eq, write, writeStr, skipWs, isWs, classify, isDigit, parseStr_writeStr cps rest hwf,
       expectV, depthOf, hd]
   · -- arr
     intro xs ih hwf d rest hd _
-    simp only [wellFormed] at hwf
+    simp only [WF] at hwf
     have e : write F (.arr xs) ++ rest = 0x5B :: (writeElems F true xs ++ 0x5D :: rest) := by
       simp [write]
     rw [e, parseValue_eq]
@@ -672,7 +718,7 @@ theorem parse_write_all (F : ExtFloat) :
         simp [hlt, this]
   · -- obj
     intro es ih hwf d rest hd _
-    simp only [wellFormed] at hwf
+    simp only [WF] at hwf
     have e : write F (.obj es) ++ rest = 0x7B :: (writeEntries F true es ++ 0x7D :: rest) := by
       simp [write]
     rw [e, parseValue_eq]
@@ -692,12 +738,12 @@ theorem parse_write_all (F : ExtFloat) :
     simp [writeElems, parseElems_eq, skipWs, isWs, depthOfList, hd]
   · -- elems cons
     intro first x xs ih1 ih2 hwf d rest hd
-    simp only [wellFormedList, Bool.and_eq_true] at hwf
+    simp only [WFList] at hwf
     have htail : numEnd (writeElems F false xs ++ 0x5D :: rest) = true := by
       cases xs with
       | nil => simp [writeElems, numEnd, isDigit]
       | cons y ys => simp [writeElems, numEnd, isDigit]
-    obtain ⟨b, t, hb, hws, hb1, _, _⟩ := write_head F x hwf.1
+    obtain ⟨b, t, hb, hws, hb1, _, _⟩ := write_headP F P hP x hwf.1
     have hx := ih1 hwf.1 d _ hd (fun _ => htail)
     have hxs := ih2 hwf.2 d rest hd
     rw [hb] at hx
@@ -737,7 +783,7 @@ theorem parse_write_all (F : ExtFloat) :
     simp [writeEntries, parseEntries_eq, skipWs, isWs, depthOfEntries, hd]
   · -- entries cons
     intro first k v es ih1 ih2 hwf d rest hd
-    simp only [wellFormedEntries, Bool.and_eq_true] at hwf
+    simp only [WFEntries] at hwf
     have htail : numEnd (writeEntries F false es ++ 0x7D :: rest) = true := by
       cases es with
       | nil => simp [writeEntries, numEnd, isDigit]
@@ -778,6 +824,55 @@ theorem parse_write_all (F : ExtFloat) :
           simp [h2, this]
       · have : ¬ (max (depthOf v) (depthOfEntries es) < d) := by omega
         simp [h1, this]
+
+theorem wf_of_wellFormed :
+    (∀ v, wellFormed v = true → WF (fun _ => False) v) ∧
+    (∀ (_ : Bool) es, wellFormedEntries es = true → WFEntries (fun _ => False) es) ∧
+    (∀ (_ : Bool) xs, wellFormedList xs = true → WFList (fun _ => False) xs) := by
+  apply write.mutual_induct
+    (motive_1 := fun v => wellFormed v = true → WF (fun _ => False) v)
+    (motive_2 := fun _ es => wellFormedEntries es = true → WFEntries (fun _ => False) es)
+    (motive_3 := fun _ xs => wellFormedList xs = true → WFList (fun _ => False) xs)
+  · intro _; trivial
+  · intro _; trivial
+  · intro _; trivial
+  · intro i h; simpa [wellFormed, WF] using h
+  · intro src h; simp [wellFormed] at h
+  · intro cps h; simpa [wellFormed, WF] using h
+  · intro xs ih h; simp only [wellFormed] at h; simp only [WF]; exact ih h
+  · intro es ih h; simp only [wellFormed] at h; simp only [WF]; exact ih h
+  · intro _ _; trivial
+  · intro _ x xs ih1 ih2 h
+    simp only [wellFormedList, Bool.and_eq_true] at h
+    exact ⟨ih1 h.1, ih2 h.2⟩
+  · intro _ _; trivial
+  · intro _ k v es ih1 ih2 h
+    simp only [wellFormedEntries, Bool.and_eq_true] at h
+    exact ⟨⟨h.1.1, ih1 h.1.2⟩, ih2 h.2⟩
+
+theorem fixes_false (F : ExtFloat) : F.Fixes (fun _ => False) := fun _ h => h.elim
+
+theorem write_head (F : ExtFloat) (v : JVal) (h : wellFormed v = true) :
+    ∃ b t, write F v = b :: t ∧ isWs b = false ∧ b ≠ 0x5D ∧ b ≠ 0x7D ∧ b ≠ 0x2C :=
+  write_headP F _ (fixes_false F) v (wf_of_wellFormed.1 v h)
+
+/-- The float-free instance. -/
+theorem parse_write_all (F : ExtFloat) :
+    (∀ v, wellFormed v = true → ∀ d rest, 0 < d → (isIntVal v = true → numEnd rest = true) →
+      parseValue d (write F v ++ rest) = expectV v d rest) ∧
+    (∀ first es, wellFormedEntries es = true → ∀ d rest, 0 < d →
+      parseEntries d first (writeEntries F first es ++ 0x7D :: rest) =
+        if depthOfEntries es < d then .ok (es, rest) else .error .recursionLimit) ∧
+    (∀ first xs, wellFormedList xs = true → ∀ d rest, 0 < d →
+      parseElems d first (writeElems F first xs ++ 0x5D :: rest) =
+        if depthOfList xs < d then .ok (xs, rest) else .error .recursionLimit) := by
+  have g := parse_write_gen F _ (fixes_false F)
+  refine ⟨?_, ?_, ?_⟩
+  · intro v hwf d rest hd hrest
+    refine g.1 v (wf_of_wellFormed.1 v hwf) d rest hd (fun hne => hrest ?_)
+    cases v <;> simp_all [needsEnd, isIntVal, wellFormed]
+  · intro first es hwf; exact g.2.1 first es (wf_of_wellFormed.2.1 first es hwf)
+  · intro first xs hwf; exact g.2.2 first xs (wf_of_wellFormed.2.2 first xs hwf)
 
 /-! ## The UTF-8 well-formedness automaton -/
 
@@ -1886,6 +1981,218 @@ theorem wellFormed_floatfree :
   · intro _ k v es ih1 ih2 h
     simp only [wellFormedEntries, Bool.and_eq_true] at h
     simp [hasFloatEntries, ih1 h.1.2, ih2 h.2]
+
+
+/-! ## Floats: what the float-inclusive statements need from `ExtFloat` -/
+
+mutual
+  /-- Every float replaced by what `F` writes for it. -/
+  def normF (F : ExtFloat) : JVal → JVal
+    | .float src => .float (F.fmt src)
+    | .arr xs => .arr (normFList F xs)
+    | .obj es => .obj (normFEntries F es)
+    | v => v
+  def normFList (F : ExtFloat) : List JVal → List JVal
+    | [] => []
+    | x :: xs => normF F x :: normFList F xs
+  def normFEntries (F : ExtFloat) : List (List Nat × JVal) → List (List Nat × JVal)
+    | [] => []
+    | (k, v) :: es => (k, normF F v) :: normFEntries F es
+end
+
+/-- `F`'s output is stable under `F` and reads back as a float with that very
+text ("format ∘ parse ∘ format = format" at the level of text). -/
+def ExtFloat.FmtParseFmt (F : ExtFloat) : Prop :=
+  ∀ src, F.fmt (F.fmt src) = F.fmt src ∧ FloatLit (F.fmt src)
+
+/-- The texts `F` can produce. -/
+def ExtFloat.range (F : ExtFloat) (s : List Nat) : Prop := ∃ src, s = F.fmt src
+
+theorem ExtFloat.FmtParseFmt.fixes {F : ExtFloat} (h : F.FmtParseFmt) : F.Fixes F.range := by
+  intro s ⟨src, hs⟩
+  subst hs
+  exact h src
+
+theorem normF_spec (F : ExtFloat) (hF : F.FmtParseFmt) :
+    (∀ v, WF (fun _ => True) v →
+      WF F.range (normF F v) ∧ write F (normF F v) = write F v ∧ depthOf (normF F v) = depthOf v) ∧
+    (∀ first es, WFEntries (fun _ => True) es →
+      WFEntries F.range (normFEntries F es) ∧
+      writeEntries F first (normFEntries F es) = writeEntries F first es ∧
+      depthOfEntries (normFEntries F es) = depthOfEntries es) ∧
+    (∀ first xs, WFList (fun _ => True) xs →
+      WFList F.range (normFList F xs) ∧ writeElems F first (normFList F xs) = writeElems F first xs ∧
+      depthOfList (normFList F xs) = depthOfList xs) := by
+  apply write.mutual_induct
+    (motive_1 := fun v => WF (fun _ => True) v →
+      WF F.range (normF F v) ∧ write F (normF F v) = write F v ∧ depthOf (normF F v) = depthOf v)
+    (motive_2 := fun first es => WFEntries (fun _ => True) es →
+      WFEntries F.range (normFEntries F es) ∧
+      writeEntries F first (normFEntries F es) = writeEntries F first es ∧
+      depthOfEntries (normFEntries F es) = depthOfEntries es)
+    (motive_3 := fun first xs => WFList (fun _ => True) xs →
+      WFList F.range (normFList F xs) ∧ writeElems F first (normFList F xs) = writeElems F first xs ∧
+      depthOfList (normFList F xs) = depthOfList xs)
+  · intro _; exact ⟨trivial, rfl, rfl⟩
+  · intro _; exact ⟨trivial, rfl, rfl⟩
+  · intro _; exact ⟨trivial, rfl, rfl⟩
+  · intro i h; exact ⟨by simpa [normF, WF] using h, rfl, rfl⟩
+  · intro src _
+    refine ⟨?_, ?_, rfl⟩
+    · simp only [normF, WF]; exact ⟨src, rfl⟩
+    · simp only [normF, write]; exact (hF src).1
+  · intro cps h; exact ⟨by simpa [normF, WF] using h, rfl, rfl⟩
+  · intro xs ih h
+    simp only [WF] at h
+    obtain ⟨h1, h2, h3⟩ := ih h
+    exact ⟨by simpa [normF, WF] using h1, by simp [normF, write, h2], by simp [normF, depthOf, h3]⟩
+  · intro es ih h
+    simp only [WF] at h
+    obtain ⟨h1, h2, h3⟩ := ih h
+    exact ⟨by simpa [normF, WF] using h1, by simp [normF, write, h2], by simp [normF, depthOf, h3]⟩
+  · intro first _; exact ⟨trivial, rfl, rfl⟩
+  · intro first x xs ih1 ih2 h
+    simp only [WFList] at h
+    obtain ⟨a1, a2, a3⟩ := ih1 h.1
+    obtain ⟨b1, b2, b3⟩ := ih2 h.2
+    exact ⟨⟨a1, b1⟩, by simp [normFList, writeElems, a2, b2], by simp [normFList, depthOfList, a3, b3]⟩
+  · intro first _; exact ⟨trivial, rfl, rfl⟩
+  · intro first k v es ih1 ih2 h
+    simp only [WFEntries] at h
+    obtain ⟨a1, a2, a3⟩ := ih1 h.1.2
+    obtain ⟨b1, b2, b3⟩ := ih2 h.2
+    exact ⟨⟨⟨h.1.1, a1⟩, b1⟩, by simp [normFEntries, writeEntries, a2, b2],
+      by simp [normFEntries, depthOfEntries, a3, b3]⟩
+
+theorem takeDigits_digitEnd (rest : List Nat) (h : digitEnd rest = true) : takeDigits rest = ([], rest) := by
+  simpa using takeDigits_append [] rest (by simp) h
+
+/-- `1.5` is a float literal in the sense of `FloatLit`. -/
+theorem floatLit_1_5 : FloatLit [0x31, 0x2E, 0x35] := by
+  refine ⟨⟨0x31, _, rfl, Or.inr (by decide)⟩, ?_⟩
+  intro d rest hd hrest
+  have htd := takeDigits_digitEnd rest (numEnd_not_digit hrest)
+  have hex := lexExp_numEnd rest hrest
+  rw [parseValue_eq]
+  simp [skipWs, isWs, classify, isDigit, lexNumber, lexInt, takeDigits, lexFrac, htd, hex, classifyNum,
+    digitsVal, floatFinite, numSrc, numVal]
+
+
+theorem floatLit_valid {src : List Nat} (h : FloatLit src) : u8run .acc src = .acc := by
+  have hp := h.2 1 [] (by decide) rfl
+  simp only [List.append_nil] at hp
+  exact ((parse_consumes _ _ (Nat.le_refl _)).1 _ _ _ hp).valid rfl
+
+theorem write_valid_gen (F : ExtFloat) (P : List Nat → Prop) (hP : F.Fixes P) :
+    (∀ v, WF P v → u8run .acc (write F v) = .acc) ∧
+    (∀ first es, WFEntries P es → u8run .acc (writeEntries F first es) = .acc) ∧
+    (∀ first xs, WFList P xs → u8run .acc (writeElems F first xs) = .acc) := by
+  apply write.mutual_induct
+    (motive_1 := fun v => WF P v → u8run .acc (write F v) = .acc)
+    (motive_2 := fun first es => WFEntries P es → u8run .acc (writeEntries F first es) = .acc)
+    (motive_3 := fun first xs => WFList P xs → u8run .acc (writeElems F first xs) = .acc)
+  · intro _; simp only [write]; decide
+  · intro _; simp only [write]; decide
+  · intro _; simp only [write]; decide
+  · intro i _; exact u8run_intDec i
+  · intro src h
+    simp only [WF] at h
+    obtain ⟨he, hl⟩ := hP src h
+    simp only [write, he]; exact floatLit_valid hl
+  · intro cps h; exact u8run_writeStr cps (by simpa [WF] using h)
+  · intro xs ih h
+    simp only [WF] at h
+    rw [write, show 0x5B :: writeElems F true xs ++ [0x5D] = [0x5B] ++ (writeElems F true xs ++ [0x5D]) by simp]
+    exact u8_append (by decide) (u8_append (ih h) (by decide))
+  · intro es ih h
+    simp only [WF] at h
+    rw [write, show 0x7B :: writeEntries F true es ++ [0x7D] = [0x7B] ++ (writeEntries F true es ++ [0x7D]) by simp]
+    exact u8_append (by decide) (u8_append (ih h) (by decide))
+  · intro first _; rfl
+  · intro first x xs ih1 ih2 h
+    simp only [WFList] at h
+    rw [writeElems]
+    refine u8_append (u8_append ?_ (ih1 h.1)) (ih2 h.2)
+    cases first <;> decide
+  · intro first _; rfl
+  · intro first k v es ih1 ih2 h
+    simp only [WFEntries] at h
+    rw [writeEntries]
+    rw [show (if first = true then [] else [0x2C]) ++ writeStr k ++ 0x3A :: write F v ++ writeEntries F false es
+      = ((if first = true then [] else [0x2C]) ++ writeStr k) ++ ([0x3A] ++ (write F v ++ writeEntries F false es)) by simp]
+    refine u8_append (u8_append ?_ (u8run_writeStr k h.1.1)) (u8_append (by decide) (u8_append (ih1 h.1.2) (ih2 h.2)))
+    cases first <;> decide
+
+theorem readerLoop_writeP (F : ExtFloat) (P : List Nat → Prop) (hP : F.Fixes P) (v : JVal) (l : List Nat)
+    (hwf : WF P v) (hl : endOk l = true) :
+    readerLoop (write F v ++ l) =
+      if depthOf v < depthLimit then (v :: (readerLoop l).1, (readerLoop l).2)
+      else ([], .err .recursionLimit) := by
+  obtain ⟨b, t, hb, hws, _⟩ := write_headP F P hP v hwf
+  have hp := (parse_write_gen F P hP).1 v hwf depthLimit l (by decide) (fun _ => endOk_numEnd hl)
+  rw [readerLoop_eq]
+  rw [hb] at hp ⊢
+  simp only [List.cons_append] at hp ⊢
+  rw [skipWs_cons _ hws]
+  by_cases hdp : depthOf v < depthLimit
+  · simp only [hp, expectV, hdp, if_true]
+  · simp only [hp, expectV, hdp, if_false]
+
+theorem sliceDocs_writeP (F : ExtFloat) (P : List Nat → Prop) (hP : F.Fixes P) (v : JVal) (l : List Nat)
+    (hwf : WF P v) (hl : endOk l = true) :
+    sliceDocs (write F v ++ l) =
+      if depthOf v < depthLimit then (v :: (sliceDocs l).1, (sliceDocs l).2)
+      else ([], .err .recursionLimit) := by
+  obtain ⟨b, t, hb, hws, _⟩ := write_headP F P hP v hwf
+  have hp := (parse_write_gen F P hP).1 v hwf depthLimit l (by decide) (fun _ => endOk_numEnd hl)
+  rw [sliceDocs_eq]
+  rw [hb] at hp ⊢
+  simp only [List.cons_append] at hp ⊢
+  rw [skipWs_cons _ hws]
+  by_cases hdp : depthOf v < depthLimit
+  · simp [hp, expectV, hdp, hl]
+  · simp only [hp, expectV, hdp, if_false]
+
+/-- Every document is well-formed (floats in `P`) and within the depth limit. -/
+def docsOkP (P : List Nat → Prop) (docs : List JVal) : Prop :=
+  ∀ d ∈ docs, WF P d ∧ depthOf d < depthLimit
+
+theorem readerLoop_writeDocsP (F : ExtFloat) (P : List Nat → Prop) (hP : F.Fixes P) (docs : List JVal)
+    (h : docsOkP P docs) : readerLoop (writeDocs F docs) = (docs, .ok) := by
+  induction docs with
+  | nil => rw [readerLoop_eq]; simp [writeDocs, skipWs]
+  | cons d ds ih =>
+    have hd := h d (by simp)
+    have hnl : readerLoop (0x0A :: writeDocs F ds) = readerLoop (writeDocs F ds) :=
+      readerLoop_ws [0x0A] _ (by simp [isWs])
+    rw [writeDocs, readerLoop_writeP F P hP d _ hd.1 (by simp [endOk, isWs]), if_pos hd.2, hnl,
+      ih (fun x hx => h x (by simp [hx]))]
+
+theorem sliceDocs_writeDocsP (F : ExtFloat) (P : List Nat → Prop) (hP : F.Fixes P) (docs : List JVal)
+    (h : docsOkP P docs) : sliceDocs (writeDocs F docs) = (docs, .ok) := by
+  induction docs with
+  | nil => rw [sliceDocs_eq]; simp [writeDocs, skipWs]
+  | cons d ds ih =>
+    have hd := h d (by simp)
+    have hnl : sliceDocs (0x0A :: writeDocs F ds) = sliceDocs (writeDocs F ds) :=
+      sliceDocs_ws [0x0A] _ (by simp [isWs])
+    rw [writeDocs, sliceDocs_writeP F P hP d _ hd.1 (by simp [endOk, isWs]), if_pos hd.2, hnl,
+      ih (fun x hx => h x (by simp [hx]))]
+
+theorem writeDocs_validP (F : ExtFloat) (P : List Nat → Prop) (hP : F.Fixes P) (docs : List JVal)
+    (h : ∀ d ∈ docs, WF P d) : u8run .acc (writeDocs F docs) = .acc := by
+  induction docs with
+  | nil => rfl
+  | cons d ds ih =>
+    rw [writeDocs, show write F d ++ 0x0A :: writeDocs F ds = write F d ++ ([0x0A] ++ writeDocs F ds) by simp]
+    exact u8_append ((write_valid_gen F P hP).1 d (h d (by simp)))
+      (u8_append (by decide) (ih (fun x hx => h x (by simp [hx]))))
+
+theorem sliceLoop_writeDocsP (F : ExtFloat) (P : List Nat → Prop) (hP : F.Fixes P) (docs : List JVal)
+    (h : docsOkP P docs) : sliceLoop (writeDocs F docs) = (docs, .ok) := by
+  unfold sliceLoop validUtf8
+  rw [writeDocs_validP F P hP docs (fun d hd => (h d hd).1)]
+  simp [sliceDocs_writeDocsP F P hP docs h]
 
 
 end Xt.Json
